@@ -61,6 +61,8 @@ RULE_GROUPS: Dict[str, Callable] = {
     'rd.kwargs_from_edges': rd.rule_kwargs_from_edges,
     'rd.filtered_view': rd.rule_filtered_view,
     'rd.error_gate_siblings': rd.rule_error_gate_siblings,
+    'rd.subgraph_node_set': rd.rule_subgraph_node_set,
+    'st.default_visibility': st.rule_default_visibility,
     'oo.oneof_sequential': oo.rule_oneof_sequential,
     'oo.oneof_exhaustion': oo.rule_oneof_exhaustion,
     'oo.flag_propagation': oo.rule_flag_propagation,
@@ -201,6 +203,12 @@ RULES: Dict[str, Tuple[str, str]] = {
     'PB-1': ('on.publish_atomic', 'no suspension point between obtaining a node value from its execution and publishing it'),
     'RC-6': ('rd.filtered_view', 'the dag of a recurrent re-iteration (the set that is re-armed) is not cut from a view that drops '
                                  'case_branch edges'),
+    'BD-8': ('bd.constructs', 'synthetic node ids are unique per declared parameter (own name, fresh id, or consumer + parameter index)'),
+    'VL-6': ('bd.node_map_and_validation', 'every node that enters the seen-set of the traversal is pushed onto the worklist'),
+    'AS-4': ('fs.saves', 'the artifact is saved before the run waiter is notified'),
+    'RC-7': ('rd.subgraph_node_set', 'a sub-dag consists of exactly the nodes on dependency paths from its source to its destination'),
+    'ST-2': ('st.default_visibility', 'read accessors of the storage treat hidden entries as absent by default'),
+    'EX-3': ('ex.decision_table', 'every path of build() to DAG(...) computes the pool flags from the node map'),
     'BD-6': ('bd.node_map_and_validation', 'every visited node is in the node map; build returns copies'),
     'VL-1': ('bd.node_map_and_validation', 'every node taken from the worklist is validated (all _check_* rules) before any other use'),
     'VL-2': ('bd.node_map_and_validation', 'every node-valued field of every mark reaches the worklist'),
@@ -256,7 +264,7 @@ def _in(*props):
 
 _p(PropertySpec(
     'C04',
-    [('ON-1', None), ('ON-2', None), ('ON-3', None), ('ON-4', None), ('RD-5', None), ('WK-k', None)],
+    [('ON-1', None), ('ON-2', None), ('ON-3', None), ('ON-4', None), ('RD-5', None), ('WK-k', None), ('RC-7', None)],
     decides='the at-most-once guard: the processed test-and-set is atomic on the event loop, node code is reachable only '
             'behind it, results are re-armed only in recurrent contexts, second arrivals are released only after the result '
             'is written, and only the owner of an execution publishes its result',
@@ -342,12 +350,13 @@ def _mentions(*words):
 # C02 also owns the finish predicates
 PROPERTIES['C02'].rules.append(('WK-g', None))
 PROPERTIES['C02'].rules.append(('ST-1', None))
+PROPERTIES['C02'].rules.append(('RD-2', None))
 PROPERTIES['C02'].floors.update({'WK-g': 2, 'ST-1': 2})
 
 _p(PropertySpec(
     'C03',
     [('RD-1', None), ('RD-2', None), ('RD-3', None), ('RD-4', None), ('RD-5', None), ('RD-6', None), ('SW-3', None),
-     ('ST-1', None), ('OO-6', None), ('ER-6', None), ('PB-1', None), ('RC-6', None), ('SH-1', _viol)],
+     ('ST-1', None), ('ST-2', None), ('OO-6', None), ('ER-6', None), ('PB-1', None), ('RC-6', None), ('RC-7', None), ('SH-1', _viol)],
     decides='the launch is gated by the readiness wait, readiness is strict over every store state (absent / hidden / Recurrent '
             'predecessors never release a node), argument names and the switch indirection agree between builder, readiness and '
             'argument delivery, the input node gets the caller\'s input_kwargs, failure objects become values only in one-of dags '
@@ -361,7 +370,7 @@ _p(PropertySpec(
 
 _p(PropertySpec(
     'C09',
-    [('SW-1', None), ('SW-3', None), ('SW-4', None), ('SW-6', None), ('WK-a', None), ('ER-5', None), ('RC-6', None),
+    [('SW-1', None), ('SW-3', None), ('SW-4', None), ('SW-6', None), ('WK-a', None), ('ER-5', None), ('RC-6', None), ('ST-2', None), ('BD-8', None),
      ('WK-b', _mentions('switch', '_add_case_result')), ('RD-3', _mentions('is_switch', 'case_branch')), ('SH-1', _viol)],
     decides='laziness (every sub-dag is cut from the view without case_branch edges, whose filter is evaluated over the attribute '
             'domain), routing (readiness and argument delivery both resolve a switch to the selected case; the builder writes and '
@@ -377,7 +386,8 @@ _p(PropertySpec(
 _p(PropertySpec(
     'C10',
     [('OO-1', None), ('OO-2', None), ('OO-3', None), ('OO-4', None), ('OO-5', None), ('OO-6', None), ('RD-6', None),
-     ('WK-f', None), ('WK-g', _mentions('oneof')), ('SW-1', _mentions('filter_node', 'sub-dag')), ('ER-6', None), ('SH-1', _viol)],
+     ('WK-f', None), ('WK-g', _mentions('oneof')), ('SW-1', _mentions('filter_node', 'sub-dag')), ('ER-6', None), ('RD-2', None), ('BD-8', None),
+     ('SH-1', _viol)],
     decides='candidates are tried sequentially, lazily and in declared order; untried candidates are excluded from every executed '
             'dag; the errors-as-values flag is inherited by every sub-dag; the error gate precedes every launch; exhaustion '
             'yields OneOfDoesNotHaveResultError; the owner of a candidate is woken on deep failures and on None results; '
@@ -392,7 +402,7 @@ _p(PropertySpec(
 _p(PropertySpec(
     'C11',
     [('RC-1', None), ('RC-2', None), ('RC-4', None), ('RC-5', None), ('RD-2', None), ('SW-4', None), ('ST-1', None),
-     ('ON-3', None), ('SW-1', _mentions('sub-dag')), ('RD-5', None), ('PB-1', None), ('RC-6', None), ('SH-1', _viol)],
+     ('ON-3', None), ('SW-1', _mentions('sub-dag')), ('RD-5', None), ('PB-1', None), ('RC-6', None), ('RC-7', None), ('ST-2', None), ('SH-1', _viol)],
     decides='the re-execution loop is bounded by exactly max_iterations and runs the subgraph once per iteration, the marker data '
             'is handed over before every run through a per-run slot the argument builder reads, consumers are never released on a '
             'Recurrent or hidden result, re-arming resets every store readiness and routing read and happens only in recurrent '
@@ -432,7 +442,7 @@ _p(PropertySpec(
 _p(PropertySpec(
     'C15',
     [('BD-1', None), ('BD-2', None), ('BD-3', None), ('BD-4', None), ('BD-5', None), ('BD-6', None), ('BD-7', None), ('VL-2', None),
-     ('SW-6', None), ('OO-3', None), ('RC-5', None), ('RD-3', None)],
+     ('SW-6', None), ('OO-3', None), ('RC-5', None), ('RD-3', None), ('BD-8', None), ('VL-6', None)],
     decides='every collected mark is translated, every mark branch delivers its parameter by exactly one kwarg_name edge into the '
             'consumer, the implicit input edge exists only for mark-less nodes, every declared node reaches the worklist and the '
             'node map, the three constructs write the attributes the manager reads, build returns copies',
@@ -444,7 +454,7 @@ _p(PropertySpec(
 
 _p(PropertySpec(
     'C16',
-    [('VL-1', None), ('VL-2', None), ('VL-3', None), ('VL-4', None), ('VL-5', None), ('BD-5', None), ('BD-7', None), ('RC-5', None)],
+    [('VL-1', None), ('VL-2', None), ('VL-3', None), ('VL-4', None), ('VL-5', None), ('VL-6', None), ('BD-5', None), ('BD-7', None), ('RC-5', None)],
     decides='every visited node is validated first, every node-valued field of every mark is visited, each of the nine rejection '
             'classes is raised under its documented condition in code reachable from build_dag / build_dag_single / build_node, '
             'the recurrent validations dominate the construction of the DAG, every public mark is translated or rejected',
@@ -456,7 +466,7 @@ _p(PropertySpec(
 
 _p(PropertySpec(
     'C17',
-    [('EX-1', None), ('EX-2', None), ('EX-4', None), ('EX-5', None), ('CC-5', None)],
+    [('EX-1', None), ('EX-2', None), ('EX-3', None), ('EX-4', None), ('EX-5', None), ('CC-5', None)],
     decides='pool validation precedes the run manager; for all 8 kinds of node (coroutine x process tag x non_async tag) the pool '
             'that run_node fetches is one that DAG.run validated, following the flags from _is_executor_needed through build() '
             'and DAG(...); is_ready raises exactly when a pool or its manager is missing or shut down; every dispatch leaf passes '
@@ -482,7 +492,7 @@ _p(PropertySpec(
 
 _p(PropertySpec(
     'C19',
-    [('AS-1', None), ('AS-2', None), ('AS-3', None)],
+    [('AS-1', None), ('AS-2', None), ('AS-3', None), ('AS-4', None)],
     decides='what the engine hands to a configured store: the value classes at the save call (never a Recurrent marker or a '
             'contained failure), who saves (only the owner of an execution) and when (not before the value is final), and that '
             'the saved (id, value) are the published ones',
